@@ -124,7 +124,34 @@ var (
 	dEnts     []ent
 	dStub     *stub
 	dPipe     *middleware.Pipeline
+	dSlabChain *middleware.Chain
 )
+
+// slabT is a reusable transport: the object stays, the peer changes.
+type slabT struct {
+	proto string
+	udp   *net.UDPAddr
+	tcp   *net.TCPAddr
+	n     int
+}
+
+func (t *slabT) LocalAddr() net.Addr { return &net.TCPAddr{IP: net.IPv4(127, 0, 0, 1), Port: 53} }
+func (t *slabT) RemoteAddr() net.Addr {
+	if t.proto == "udp" {
+		return t.udp
+	}
+	return t.tcp
+}
+func (t *slabT) WriteMsg(*dns.Msg) error     { t.n++; return nil }
+func (t *slabT) Write(b []byte) (int, error) { t.n++; return len(b), nil }
+func (t *slabT) Close() error                { return nil }
+
+func parseAddrOr(s string) netip.Addr {
+	if s == "i" {
+		return netip.AddrFrom4([4]byte{127, 0, 0, 255})
+	}
+	return parseAddr(s)
+}
 
 var typeByName = map[string]uint16{"a": dns.TypeA, "aaaa": dns.TypeAAAA, "txt": dns.TypeTXT}
 
@@ -302,6 +329,7 @@ func exec(op string) vlib.Res {
 			CookieSecret: "6c6f6f6b61686172646c6f6f6b6168617264"}
 		middleware.Setup(cfg)
 		dPipe = middleware.GlobalPipeline()
+		dSlabChain = nil
 		if len(dEnts) == 0 {
 			dEnts = []ent{parseEnt("4:00000000/0"), parseEnt("6:00000000000000000000000000000000/0")}
 		}
@@ -339,6 +367,53 @@ func exec(op string) vlib.Res {
 			impl = fmt.Sprintf("reply=%s rcode=%d", vlib.B(w.Written()), w.Rcode())
 		}
 		return vlib.Res{Impl: impl, Oracle: or, Tags: "nt"}
+	case "dchain slab":
+		// dchain slab <proto> <addr,addr,…>: ONE chain and ONE transport object
+		// carried through several connections / datagrams, the way the server's
+		// job slabs are reused. "i" is the resolver's internal sentinel source.
+		// Every query is judged by the source it arrived from, not by what an
+		// earlier use of the same slab saw.
+		if dSlabChain == nil {
+			dSlabChain = dPipe.NewChain()
+		}
+		t := &slabT{proto: f[2]}
+		var got, want []string
+		or := "ok"
+		for _, as := range strings.Split(f[3], ",") {
+			var ip net.IP
+			port := 4242
+			internal := as == "i"
+			if internal {
+				ip, port = net.IPv4(127, 0, 0, 255), 0
+			} else {
+				ip = net.IP(parseAddr(as).AsSlice())
+			}
+			if f[2] == "udp" {
+				if t.udp == nil {
+					t.udp = &net.UDPAddr{IP: make(net.IP, 0, 16)}
+				}
+				// the datagram job rewrites its source in place
+				t.udp.IP = append(t.udp.IP[:0], ip...)
+				t.udp.Port = port
+			} else {
+				t.tcp = &net.TCPAddr{IP: ip, Port: port}
+			}
+			t.n = 0
+			before := dStub.calls
+			dSlabChain.Reset(t, query())
+			dSlabChain.Next(context.Background())
+			allowed := internal || naive(dEnts, parseAddrOr(as))
+			replied := t.n > 0
+			got = append(got, vlib.B(replied))
+			want = append(want, vlib.B(allowed))
+			if !allowed && (replied || dStub.calls != before) {
+				or = "FAIL sig=dchain/slab/denied-source-served-on-reused-transport proto=" + f[2]
+			} else if allowed && !replied && or == "ok" {
+				or = "FAIL sig=dchain/slab/allowed-source-dropped-on-reused-transport proto=" + f[2]
+			}
+		}
+		_ = want
+		return vlib.Res{Impl: "reply=" + strings.Join(got, ""), Oracle: or, Tags: "nt"}
 	case "sub query":
 		// Internal sub-queries bypass every client-only policy: a
 		// pipeline whose access list denies everything (and whose rate
@@ -578,6 +653,20 @@ func gen(r *vlib.R, n int, tier string, emit func(string)) {
 					prevCookie = ck
 				}
 				emit(fmt.Sprintf("dchain %s %s %s %s %s %s", verb, genAddr(r, pool), vlib.Pick(r, []string{"udp", "tcp", "doh"}), ver, opc, ck))
+			}
+			if rl == 0 {
+				for k := 0; k < 2; k++ {
+					var as []string
+					for j, m := 0, 2+r.Intn(5); j < m; j++ {
+						if r.Chance(1, 8) {
+							as = append(as, "i")
+						} else {
+							as = append(as, genAddr(r, pool))
+						}
+					}
+					emit(fmt.Sprintf("dchain slab %s %s", vlib.Pick(r, []string{"udp", "tcp"}), strings.Join(as, ",")))
+				}
+				n -= 2
 			}
 			n -= q + 1
 		default:
